@@ -492,7 +492,10 @@ func (c *Compiler) isFeatureValid(m parse.Node, n parse.Node, featTree map[strin
 		c.error(n, fmt.Errorf("Feature cyclic reference: %s", featName))
 		return false
 	}
+	// featTree holds the features on the current chain of if-features only,
+	// so that a feature reached twice on different chains is not a cycle.
 	featTree[featName] = true
+	defer delete(featTree, featName)
 
 	// Verify each feature that this feature references via an if-feature
 	for _, ifFeat := range n.ChildrenByType(parse.NodeIfFeature) {
